@@ -165,7 +165,9 @@ def addr_pair_st(draw, tier):
 # --------------------------------------------------------------------------------------- members
 def member_text(pair, platform: str, style: int, seq: int = 0) -> str:
     b, w = pair
-    if w == 0:
+    if w == R.ALL1 and platform == "nxos" and style % 3 == 0:
+        text = "any"  # NX-OS spelling of 0.0.0.0/0 inside an address group
+    elif w == 0:
         text = f"host {R.int2ip(b)}" if style % 2 == 0 or platform == "ios" else f"{R.int2ip(b)}/32"
     elif platform == "ios":
         text = f"{R.int2ip(b)} {R.int2ip(~w & R.ALL1)}"
